@@ -546,20 +546,33 @@ func (hj *hijack) pre(req *tikvrpc.Request) (*tikvrpc.Response, error) {
 		}
 		hj.checks[r.LockTs]++
 		n := hj.checks[r.LockTs]
+		if n == 12 && os.Getenv("VERIF_DEBUG") != "" {
+			fmt.Fprintf(os.Stderr, "MANY-CHECKS hid=%d txn=%s caller=%s primary=%s\n", e.h.hid, u64s(r.LockTs), u64s(r.CallerStartTs), hx(r.PrimaryKey))
+		}
 		if r.LockTs > r.CallerStartTs {
 			// a lock of a transaction that started after the snapshot must be ignored, not resolved
 			hj.later = append(hj.later, fmt.Sprintf("%s\t%s", u64s(r.LockTs), u64s(r.CallerStartTs)))
 		}
-		hj.mu.Unlock()
+		// The owner finishes its transaction at the n-th status check.  This happens INSIDE the critical
+		// section: with sleeping virtualised a reader burns its whole back-off budget in microseconds of
+		// real time, so if the goroutine that drew n = finishAt were descheduled between the counter and the
+		// commit, the other batch-get worker would draw n+1, n+2, ... see "alive" every time and give up
+		// (the load-sensitive "resolve lock timeout" of earlier rounds).  Holding the lock orders every
+		// later status check after the finish.
 		for _, t := range e.h.txns {
 			if t.kind == kLiveFinish && t.start == r.LockTs && n == t.finishAt {
+				var ferr error
 				if t.finishComm {
-					_ = e.mvcc.Commit(e.physAll(t.keys), t.start, t.commit)
+					ferr = e.mvcc.Commit(e.physAll(t.keys), t.start, t.commit)
 				} else {
-					_ = e.mvcc.Rollback(e.physAll(t.keys), t.start)
+					ferr = e.mvcc.Rollback(e.physAll(t.keys), t.start)
+				}
+				if os.Getenv("VERIF_DEBUG") != "" {
+					fmt.Fprintf(os.Stderr, "FINISH hid=%d txn=%s n=%d comm=%v err=%v\n", e.h.hid, u64s(t.start), n, t.finishComm, ferr)
 				}
 			}
 		}
+		hj.mu.Unlock()
 	}
 	return nil, nil
 }
@@ -676,7 +689,12 @@ func (hj *hijack) send(ctx context.Context, addr string, req *tikvrpc.Request, t
 		if resp != nil && resp.Resp != nil {
 			re, _ = resp.GetRegionError()
 		}
-		fmt.Fprintf(os.Stderr, "RPC %v region=%d ver=%v addr=%s err=%v regionErr=%v\n", req.Type, req.Context.GetRegionId(), req.Context.GetRegionEpoch(), addr, err, re)
+		extra := ""
+		if req.Type == tikvrpc.CmdCheckTxnStatus && resp != nil && resp.Resp != nil {
+			cr := resp.Resp.(*kvrpcpb.CheckTxnStatusResponse)
+			extra = fmt.Sprintf(" lockTs=%s caller=%s rbIfNot=%v -> ttl=%d commit=%s action=%v err=%v", u64s(req.CheckTxnStatus().LockTs), u64s(req.CheckTxnStatus().CallerStartTs), req.CheckTxnStatus().RollbackIfNotExist, cr.LockTtl, u64s(cr.CommitVersion), cr.Action, cr.Error)
+		}
+		fmt.Fprintf(os.Stderr, "RPC hid=%d %v region=%d ver=%v err=%v regionErr=%v%s\n", e.h.hid, req.Type, req.Context.GetRegionId(), req.Context.GetRegionEpoch(), err, re, extra)
 	}
 	if traced {
 		hj.mu.Lock()
@@ -880,6 +898,8 @@ func errKind(err error) string {
 	switch {
 	case strings.Contains(s, "GC life time is shorter"):
 		return "refused"
+	case strings.Contains(s, "interrupted"):
+		return "injected"
 	case strings.Contains(s, "context canceled") || strings.Contains(s, "injected abort"):
 		return "injected"
 	case strings.Contains(s, "MaxSleep") || strings.Contains(s, "backoff"):
@@ -1318,6 +1338,31 @@ func (e *env) reads(tier string) []string {
 		bgetL("after-fault-sub", sf, h.ts1, pick(r, 1+r.Intn(len(allKeys)), allKeys))
 	}
 	e.scanCase(&lines, "after-fault", h.ts1, nil, nil, batchSizes[r.Intn(4)], false, false, false)
+	// fault class: the kill flag (kv.Variables.Killed) is raised while a read runs; a read that has to back
+	// off (lock wait, region miss) fails with "query interrupted", one that does not need to back off
+	// succeeds; afterwards the flag is lowered and the SAME snapshot is read again: nothing half-done stays
+	for round := 0; round < 2; round++ {
+		var killed uint32
+		sk := e.store.GetSnapshot(h.ts1)
+		sk.SetVars(kv.NewVariables(&killed))
+		if round == 1 {
+			for _, k := range pick(r, 1+r.Intn(3), allKeys) {
+				getL("kill-warmup", sk, h.ts1, k)
+			}
+		}
+		e.scheduleTopo(r)
+		atomic.StoreUint32(&killed, 1)
+		if r.Intn(3) == 0 {
+			getL("fault", sk, h.ts1, allKeys[r.Intn(len(allKeys))])
+		} else {
+			bgetL("fault", sk, h.ts1, allKeys)
+		}
+		atomic.StoreUint32(&killed, 0)
+		for _, k := range allKeys {
+			getL("after-kill", sk, h.ts1, k)
+		}
+		bgetL("after-kill", sk, h.ts1, allKeys)
+	}
 	// fault class: a Scan RPC is answered with a response-level lock error (both directions, random
 	// bounds and batch sizes, with and without topology changes)
 	for round := 0; round < 4; round++ {
